@@ -168,3 +168,31 @@ def rng(a, b): return Agg([a, b], 'std::ops::Range')
 def den(vals, probe):
     """signed multiplicity of `probe` among alternating add/remove terms"""
     return z3.Sum([z3.If(v == probe, 1 if i % 2 == 0 else -1, 0) for i, v in enumerate(vals)]) if vals else z3.IntVal(0)
+
+# ---------------------------------------------------------------- struct construction by field name (robust to field reordering)
+class Opaque:
+    """a field the harness does not model; any use by the code is an engine error (the claim would otherwise silently depend on it)"""
+    def __init__(self, name): self.name = name
+    def __repr__(self): return f'<opaque {self.name}>'
+
+def struct_fields(ix, file, name):
+    import re as _re
+    txt = '\n'.join(ix.src(file))
+    m = _re.search(r'\bstruct ' + name + r'\b[^{;(]*\{', txt)
+    if not m: raise AnchorError(f'struct {name} not found in {file}')
+    i = m.end(); depth = 1; j = i
+    while depth and j < len(txt):
+        depth += {'{': 1, '}': -1}.get(txt[j], 0); j += 1
+    body = _re.sub(r'//[^\n]*', '', txt[i:j - 1]); body = _re.sub(r'#\[[^\]]*\]', '', body)
+    from .mir import split_top
+    out = []
+    for part in split_top(body):
+        mm = _re.match(r'\s*(?:pub(?:\([^)]*\))? )?(\w+)\s*:', part)
+        if mm: out.append(mm.group(1))
+    return out
+
+def mk_struct(ix, file, name, ty=None, **fields):
+    names = struct_fields(ix, file, name)
+    for k in fields:
+        if k not in names: raise AnchorError(f'struct {name} has no field {k}')
+    return Agg([fields.get(n, Opaque(f'{name}.{n}')) for n in names], ty or name)
